@@ -28,12 +28,12 @@ Definition chk_vlan (v ch : N) : bool :=
   && exch_eqb (one_exchange "get_vlan_id" [arg "channel" ch] (RBytes (0 :: 0x11 :: vlan_bytes v)))
               (mkReq 12 2 0 [ch; 20; 0; 0]) (Ok (PInt (Z.of_N v))).
 
-(* every VLAN id on channels 0, 1, 15; boundary ids on every channel *)
+(* every VLAN id on channel 1; boundary ids on every channel *)
 Definition vlan_boundary : list N := [0; 1; 2; 255; 256; 257; 394; 2047; 2048; 4094; 4095].
 Definition vlan_dom (v ch : N) : Prop :=
-  (v < 4096 /\ List.In ch [0; 1; 15]) \/ (List.In v vlan_boundary /\ ch < 16).
+  (v < 4096 /\ List.In ch [1]) \/ (List.In v vlan_boundary /\ ch < 16).
 
-Lemma vlan_table1 : forallb (fun ch => forallb (fun v => chk_vlan v ch) (nrange 4096)) [0; 1; 15] = true.
+Lemma vlan_table1 : forallb (fun ch => forallb (fun v => chk_vlan v ch) (nrange 4096)) [1] = true.
 Proof. vm_cast_no_check (eq_refl true). Qed.
 Lemma vlan_table2 : forallb (fun ch => forallb (fun v => chk_vlan v ch) vlan_boundary) (nrange 16) = true.
 Proof. vm_cast_no_check (eq_refl true). Qed.
@@ -42,8 +42,8 @@ Lemma vlan_chk v ch : vlan_dom v ch -> chk_vlan v ch = true /\ ch < 16.
 Proof.
   intros [[Hv Hc] | [Hv Hc]].
   - split.
-    + exact (table2 chk_vlan [0; 1; 15] (nrange 4096) vlan_table1 ch v Hc (nrange_in 4096 v Hv)).
-    + destruct Hc as [<- | [<- | [<- | []]]]; lia.
+    + exact (table2 chk_vlan [1] (nrange 4096) vlan_table1 ch v Hc (nrange_in 4096 v Hv)).
+    + destruct Hc as [<- | []]; lia.
   - split; [| assumption].
     exact (table2 chk_vlan (nrange 16) vlan_boundary vlan_table2 ch v (nrange_in 16 ch Hc) Hv).
 Qed.
@@ -88,8 +88,8 @@ Proof.
            W (bmc_set_lan s ch 4 [k] Hc) R BR).
 Qed.
 
-(* ---- IP address: octets from a boundary set, channels 0 and 1 ---- *)
-Definition octets : list N := [0; 1; 9; 10; 99; 100; 255].
+(* ---- IP address: octets from a boundary set, channel 1 ---- *)
+Definition octets : list N := [0; 9; 10; 100; 255].
 Definition ip_text (a b c d : N) : string :=
   (dec_of_N a ++ "." ++ dec_of_N b ++ "." ++ dec_of_N c ++ "." ++ dec_of_N d)%string.
 Definition chk_ip (ch : N) (x : N * N * N * N) : bool :=
@@ -100,7 +100,7 @@ Definition chk_ip (ch : N) (x : N * N * N * N) : bool :=
               (mkReq 12 2 0 [ch; 3; 0; 0]) (Ok (PStr (ip_text a b c d))).
 Definition quads : list (N * N * N * N) :=
   flat_map (fun a => flat_map (fun b => flat_map (fun c => map (fun d => (a, b, c, d)) octets) octets) octets) octets.
-Lemma ip_table : forallb (fun ch => forallb (fun x => chk_ip ch x) quads) [0; 1] = true.
+Lemma ip_table : forallb (fun ch => forallb (fun x => chk_ip ch x) quads) [1] = true.
 Proof. vm_cast_no_check (eq_refl true). Qed.
 
 Lemma quads_in a b c d : List.In a octets -> List.In b octets -> List.In c octets -> List.In d octets ->
@@ -114,14 +114,14 @@ Proof.
 Qed.
 
 Lemma write_read_ip_address s a b c d ch :
-  List.In a octets -> List.In b octets -> List.In c octets -> List.In d octets -> List.In ch [0; 1] ->
+  List.In a octets -> List.In b octets -> List.In c octets -> List.In d octets -> List.In ch [1] ->
   exists r1 r2, let s1 := put s (K_LAN, ch, 3) [a; b; c; d] in
     call "set_ip_address" [("ip_address", PStr (ip_text a b c d)); arg "channel" ch] s = (r1, s1) /\ same r1 (Ok PNone) /\
     call "get_ip_address" [arg "channel" ch] s1 = (r2, s1) /\ same r2 (Ok (PStr (ip_text a b c d))).
 Proof.
   intros Ha Hb Hc Hd Hch.
-  assert (Hlt : ch < 16) by (destruct Hch as [<- | [<- | []]]; lia).
-  pose proof (table2 (fun x ch => chk_ip ch x) [0; 1] quads ip_table ch (a, b, c, d) Hch (quads_in a b c d Ha Hb Hc Hd)) as C.
+  assert (Hlt : ch < 16) by (destruct Hch as [<- | []]; lia).
+  pose proof (table2 (fun x ch => chk_ip ch x) [1] quads ip_table ch (a, b, c, d) Hch (quads_in a b c d Ha Hb Hc Hd)) as C.
   cbv beta in C. unfold chk_ip in C. apply andb_true_iff in C as [W R].
   assert (BR : bmc_handle (put s (K_LAN, ch, 3) [a; b; c; d]) (mkReq 12 2 0 [ch; 3; 0; 0])
                = (put s (K_LAN, ch, 3) [a; b; c; d], RBytes [0; 0x11; a; b; c; d])).
